@@ -10,6 +10,7 @@ mod prefixlaws;
 mod reschain;
 mod rfc1982;
 mod rtrconn;
+mod rtrwire;
 mod rtrsession;
 mod slurm;
 mod urialg;
@@ -35,6 +36,8 @@ fn main() {
         ("replay", "rtrsession") => rtrsession::replay(rest),
         ("drive", "rtrsession") => rtrsession::drive(rest),
         ("replay", "rtrconn") => rtrconn::replay(rest),
+        ("replay", "rtrwire") => rtrwire::replay(rest),
+        ("drive", "rtrwire") => rtrwire::drive(rest),
         ("drive", "rtrconn") => rtrconn::drive(rest),
         ("replay", "x509time") => x509time::replay(rest),
         ("native", "x509time") => x509time::native(rest),
